@@ -8,6 +8,7 @@
 -/
 import CSD.Generated.Dispatch
 import CSD.Generated.Stubs
+import CSD.Lemmas.FM17
 
 namespace CSD.Props.C16
 open CSD.Generated
@@ -65,5 +66,20 @@ theorem rank_ops_identity :
     ∀ k ∈ [Kind.PFC, .RPFC, .HTFC, .HHTFC, .RPHTFC, .RPDAC, .FMINDEX],
       body k .locateRank = .rankid ∧ body k .extractRank = .extractid := by
   decide
+
+
+/-! ### FMINDEX without sampling -/
+
+/-- `SSA::locate` on an index built without BWT sampling touches nothing and reports "no occurrences array":
+the dictionary-level `locateSubstr` / `extractSubstr` refuse before calling it, and a caller that does call it
+gets an empty answer instead of a walk over sampling structures that do not exist. -/
+theorem fmindex_unsampled_locate_is_refused (ix : FM.Index) (h : ix.samplesuff = 0) (pat : List Nat) :
+    FM.locateOccs ix pat = some none := by
+  unfold FM.locateOccs; simp [h]
+
+theorem fmindex_unsampled_locateSubstr_is_empty (d : FM.Dict) (h : d.ix.samplesuff = 0) (p : Str) :
+    d.locateSubstr p = some [] := by
+  unfold FM.Dict.locateSubstr
+  rw [fmindex_unsampled_locate_is_refused d.ix h]
 
 end CSD.Props.C16
